@@ -68,6 +68,9 @@ pub fn op_kind(op: &Op) -> &'static str {
 /// The incremental system under test: what `FileWatcher` holds.
 struct Incremental {
     tree: Option<WorkerTree>,
+    /// the first pass goes through the public `WorkerTree` API (`default`, `collect_work`,
+    /// `process`) instead of `darklua_core::process`, as an embedding program may do
+    api_only: bool,
 }
 
 impl Incremental {
@@ -81,6 +84,11 @@ impl Incremental {
         let result = exec::catch(|| {
             if let Some(tree) = self.tree.as_mut() {
                 tree.process(resources, options).map(|()| None)
+            } else if self.api_only {
+                let mut tree = WorkerTree::default();
+                tree.collect_work(resources, &options)
+                    .and_then(|()| tree.process(resources, options))
+                    .map(|()| Some(tree))
             } else {
                 darklua_core::process(resources, options).map(Some)
             }
@@ -798,7 +806,13 @@ pub fn run_l1(scn: &C10Scenario, stats: &mut RunStats) -> Vec<Violation> {
         None
     };
     let mut oracle = Oracle::new(scn.backend, &store, &region);
-    let mut inc = Incremental { tree: None };
+    // without directories (memory back end) the output-structure snapshot that only
+    // `darklua_core::process` takes does not matter: such histories may start through the
+    // public API alone
+    let mut inc = Incremental {
+        tree: None,
+        api_only: scn.backend == Backend::Memory && scn.use_add_source,
+    };
     let mut pass_index = 0usize;
     let mut pending_faults: Vec<FaultRule> = Vec::new();
     let mut pending_renotify: Vec<String> = Vec::new();
